@@ -2265,19 +2265,20 @@ class Protocol(utils.EventEmitter):
             if not self._check_vendor_dependent_frame(command):
                 return
 
+            if self.receive_command_state is not None and (
+                self.receive_command_state.transaction_label != transaction_label
+                or self.receive_command_state.command_type != command.ctype
+            ):
+                # We're in the middle of some other PDU (or one that was never
+                # completed): drop it and start over with this command
+                logger.warning("received interleaved PDU, resetting state")
+                self.command_pdu_assembler.reset()
+                self.receive_command_state = None
+
             if self.receive_command_state is None:
                 self.receive_command_state = self.ReceiveCommandState(
                     transaction_label=transaction_label, command_type=command.ctype
                 )
-            elif (
-                self.receive_command_state.transaction_label != transaction_label
-                or self.receive_command_state.command_type != command.ctype
-            ):
-                # We're in the middle of some other PDU
-                logger.warning("received interleaved PDU, resetting state")
-                self.command_pdu_assembler.reset()
-                self.receive_command_state = None
-                return
             else:
                 self.receive_command_state.command_type = command.ctype
                 self.receive_command_state.transaction_label = transaction_label
